@@ -66,10 +66,12 @@ WrJudge(ln) ==
                                \cup (IF \E i \in DOMAIN src : src[i].tris = <<>> /\ src[i].name # "" THEN {"C05.RtEmptyGroup"} ELSE {})]
          IN [bad |-> w.bad \cup r.bad, why |-> w.why \cup r.why, ex |-> {"C05.WriteOk"} \cup w.ex \cup r.ex]
 
-\* faces (corner positions) of the meshes the reader returned; a malformed mesh has none it can vouch for
+\* faces (corner positions) of the meshes the reader returned: only the index buffer and the
+\* position array are needed (other attributes of different length show up when saving)
+FacesOk(m) == Len(m.idx) % 3 = 0 /\ \A i \in DOMAIN m.idx : m.idx[i] >= 0 /\ m.idx[i] < Len(m.pos)
 LoadedFaces(rd) ==
     Flat([i \in DOMAIN rd |->
-            IF MeshOk(rd[i]) THEN LET ts == Tris(rd[i]) IN [t \in DOMAIN ts |-> [c \in 1..3 |-> ts[t][c][1]]]
+            IF FacesOk(rd[i]) THEN [t \in 1..NTris(rd[i]) |-> [c \in 1..3 |-> rd[i].pos[rd[i].idx[3 * (t - 1) + c] + 1]]]
             ELSE <<>>])
 
 LdJudge(ln) ==
